@@ -230,6 +230,23 @@ func init() {
 				r := x.asTermAny(pc.recv)
 				cur := x.ghostSel(st, "hijacked", r)
 				x.ghostSet(st, "hijacked", r, Ite(Eq(e.T, IntLit(0)), IntLit(1), cur))
+				// a successful Hijack hands over a connection (checked for both implementations,
+				// proxy/responder: Hijack contracts)
+				if c, ok := res[0].(OpaqueV); ok && c.T != nil {
+					st.assumeRaw(Implies(Eq(e.T, IntLit(0)), Ne(c.T, IntLit(0))))
+				}
+			}
+		}
+		k(st, res)
+	}
+	// http.Hijacker.Hijack (net/http): a connection and its buffered reader/writer, or an error
+	models["net/http.Hijacker.Hijack"] = func(x *Exec, fr *Frame, st *State, pc *preparedCall, k func(*State, []Value)) {
+		res := x.freshResults(st, pc.fn.Type().(*types.Signature), "nethijack")
+		if len(res) == 3 {
+			if e, ok := res[2].(OpaqueV); ok {
+				if c, ok := res[0].(OpaqueV); ok && c.T != nil {
+					st.assumeRaw(Implies(Eq(e.T, IntLit(0)), Ne(c.T, IntLit(0))))
+				}
 			}
 		}
 		k(st, res)
